@@ -53,6 +53,14 @@ def run(tier, seed, replay=None):
             st.update({"runs": 2, "starts": 2})
         meta[str(i)] = (inp, opts, kind)
         blocks.append((str(i), GF.case_lines(inp, opts, st)))
+    # structure stream: model building dominates (few iterations); precedence DAGs whose relations open several
+    # chains and join them later, with groups / initial stops / alternates on top
+    n2 = 1500 if tier == "quick" else 20000
+    for i in range(n2):
+        inp, opts, feats = GF.gen_full(rng, "small", force={"precedence": True, "dag": True, "mixing": False})
+        meta["d%d" % i] = (inp, opts, "valid-dag")
+        blocks.append(("d%d" % i, GF.case_lines(inp, opts, dict(settings, iterations=3, duration_ms=500))))
+    n += n2
     res = CR.run_crash(blocks, "c16_" + tier, timeout=3000)
     classes = {}
     kinds = {}
